@@ -20,6 +20,7 @@ var StrPool = [][]byte{
 
 // G is a seeded generator.
 type G struct {
+	Refusals bool // Calls mixes in calls the writer must refuse (unknown channel / unknown schema)
 	R *rand.Rand
 	// UTF8Only restricts strings to valid UTF-8 (C16).
 	UTF8Only bool
@@ -206,6 +207,24 @@ func (g *G) Calls(n int, chunkSize int64) []wl.Call {
 			channelList = append(channelList, id)
 			calls = append(calls, c)
 		case r < 16:
+			if g.Refusals && g.R.Intn(9) == 0 {
+				// a call the writer must refuse, leaving no trace: a message on a channel it was never given (the id may be
+				// given later), or a channel whose schema it was never given
+				if g.R.Intn(3) != 0 {
+					id := ChannelIDs[g.R.Intn(len(ChannelIDs))]
+					if _, ok := channels[id]; !ok {
+						calls = append(calls, wl.Call{Op: "message", Ch: id, Seq: g.R.Uint32(), Log: g.Time(), Pub: g.Time(), Data: g.Payload(chunkSize), Refused: true})
+					}
+				} else {
+					id, sid := ChannelIDs[g.R.Intn(len(ChannelIDs))], SchemaIDs[g.R.Intn(len(SchemaIDs))]
+					_, okc := channels[id]
+					_, oks := schemas[sid]
+					if !okc && !oks {
+						calls = append(calls, wl.Call{Op: "channel", ID: id, Schema: sid, Topic: g.Str(), Menc: g.Str(), MD: g.Map(), Refused: true})
+					}
+				}
+				continue
+			}
 			ch := channelList[g.R.Intn(len(channelList))]
 			var t uint64
 			switch mode {
@@ -514,9 +533,11 @@ func (g *G) Reannounce(calls []wl.Call) []wl.Call {
 		case "schema":
 			schemas[c.ID] = c
 		case "channel":
-			chans[c.ID] = c
+			if !c.Refused {
+				chans[c.ID] = c
+			}
 		case "message":
-			if ch, ok := chans[c.Ch]; ok && g.R.Intn(3) == 0 {
+			if ch, ok := chans[c.Ch]; ok && !c.Refused && g.R.Intn(3) == 0 {
 				if sc, ok := schemas[ch.Schema]; ok && g.R.Intn(2) == 0 {
 					out = append(out, sc)
 				}
